@@ -329,25 +329,34 @@ theorem envChain_eq (penv acc : List (Key × Str)) :
 /-- what a successful `loadEnvFile` did -/
 theorem loadEnvFile_ok (fs : FS) (f : EnvFile) (look : Look) (vars : List (Key × Str))
     (h : loadEnvFile fs f look = .ok vars) :
-    (fs f.path = none ∧ f.required = false ∧ vars = []) ∨
+    (Missing fs f.path ∧ f.required = false ∧ vars = []) ∨
     (∃ ls, fs f.path = some (.file ls) ∧ f.format = [] ∧ parseLines look ls [] = .ok vars) := by
   unfold loadEnvFile at h
   cases hp : fs f.path with
   | none =>
     rw [hp] at h
     cases hr : f.required <;> simp [hr] at h
-    exact Or.inl ⟨rfl, rfl, h⟩
+    exact Or.inl ⟨Or.inl hp, rfl, h⟩
   | some nd =>
     rw [hp] at h
-    simp only [loadMappingFile, hp] at h
     cases nd with
-    | notdir => simp at h
-    | dir => by_cases hf : f.format = [] <;> simp [hf] at h
+    | notdir =>
+      cases hr : f.required <;> simp [hr] at h
+      exact Or.inl ⟨Or.inr hp, rfl, h⟩
+    | dir =>
+      simp only [loadMappingFile, hp] at h
+      by_cases hf : f.format = [] <;> simp [hf] at h
     | file ls =>
+      simp only [loadMappingFile, hp] at h
       by_cases hf : f.format = []
       · simp only [hf, ne_eq, not_true_eq_false, if_false] at h
         exact Or.inr ⟨ls, rfl, hf, h⟩
       · simp [hf] at h
+
+theorem loadEnvFile_missing (fs : FS) (f : EnvFile) (look : Look) (hm : Missing fs f.path) :
+    loadEnvFile fs f look = if f.required then .error .notFound else .ok [] := by
+  unfold loadEnvFile
+  rcases hm with hm | hm <;> rw [hm]
 
 theorem loadLabelFile_ok (fs : FS) (p : Str) (look : Look) (vars : List (Key × Str))
     (h : loadLabelFile fs p look = .ok vars) :
@@ -357,13 +366,17 @@ theorem loadLabelFile_ok (fs : FS) (p : Str) (look : Look) (vars : List (Key × 
   | none => rw [hp] at h; simp at h
   | some nd =>
     rw [hp] at h
-    simp only [loadMappingFile, hp] at h
     cases nd with
     | notdir => simp at h
-    | dir => simp at h
+    | dir => simp [loadMappingFile, hp] at h
     | file ls =>
-      simp only [ne_eq, not_true_eq_false, if_false] at h
+      simp only [loadMappingFile, hp, ne_eq, not_true_eq_false, if_false] at h
       exact ⟨ls, rfl, h⟩
+
+theorem loadLabelFile_missing (fs : FS) (p : Str) (look : Look) (hm : Missing fs p) :
+    loadLabelFile fs p look = .error .notFound := by
+  unfold loadLabelFile
+  rcases hm with hm | hm <;> rw [hm]
 
 theorem distinct_nil {β : Type} : Distinct ([] : List (Key × β)) := by simp [Distinct]
 
@@ -397,7 +410,7 @@ theorem loadEnvFiles_spec (penv : List (Key × Str)) (fs : FS) (efs : List EnvFi
         have := ih acc hd h
         refine ⟨this.1, fun k => ?_⟩
         rw [this.2 k]
-        simp [envContents, hp]
+        rcases hp with hp | hp <;> simp [envContents, hp]
       · have hdv : Distinct vars := parseLines_distinct _ _ _ _ distinct_nil hparse
         have := ih _ (distinct_overrideBy acc vars hd) h
         refine ⟨this.1, fun k => ?_⟩
